@@ -646,3 +646,123 @@ Proof.
   apply sbind; [eapply safe_nb; exact SR|]. intros [c5 s5] E5. destruct (safe_ok _ _ _ SR E5) as [V5 H5].
   cbn [fst snd] in *. split; [exact V5 | exact H5].
 Qed.
+
+(* ================================================================== process_line and the rest *)
+Definition LI (o : bopts) (st : pstate) : Prop := W o st /\ has st (ps_current st).
+
+Lemma LI_eqtree o a b : eqtree a b -> LI o a -> LI o b.
+Proof.
+  intros T [V H]. split; [eapply W_eqtree; eassumption|]. destruct T as (T1 & T2 & T3). unfold has in *. now rewrite T1, T3.
+Qed.
+
+Lemma process_line_spec o st line0 : bo_table o = false -> bo_description_lists o = false -> LI o st ->
+  safe (LI o) (process_line o st line0).
+Proof.
+  intros Tb Dl L0. unfold process_line. cbv zeta.
+  match goal with |- safe _ (bind (check_open_blocks o ?sa ?line) _) =>
+    assert (La : LI o sa) by (eapply LI_eqtree; [|exact L0]; repeat split); set (s_a := sa) in *; set (ln := line) in * end.
+  destruct La as [Va Ha].
+  pose proof (check_open_blocks_spec o s_a ln Va) as S.
+  apply sbind; [eapply safe_nb; exact S|]. intros [r s1] E. pose proof (safe_ok _ _ _ S E) as K. clear S.
+  assert (S2 : safe (LI o)
+     (match (r, s1) with
+      | (Some (last_matched_container, all_matched), st1) =>
+        let current := ps_current st1 in
+        do r2 <- open_new_blocks o st1 last_matched_container ln all_matched;
+        let '(container, st2) := r2 in
+        if Nat.eqb current (ps_current st2) then add_text_to_container o st2 container last_matched_container ln
+        else Ok st2
+      | (None, st1) => Ok st1
+      end)).
+  { destruct r as [[lmc am]|]; cbn in K.
+    - destruct K as [T Hl]. pose proof (W_eqtree _ _ _ T Va) as V1.
+      assert (H1 : has s1 (ps_current s1)) by (destruct T as (T1 & T2 & T3); unfold has in *; now rewrite T1, T3).
+      cbv zeta. pose proof (open_new_blocks_spec o s1 lmc ln am Tb Dl V1 Hl H1) as S.
+      apply sbind; [eapply safe_nb; exact S|]. intros [c s2] E2. pose proof (safe_ok _ _ _ S E2) as J2. cbn [fst snd] in J2.
+      destruct (Nat.eqb (ps_current s1) (ps_current s2)) eqn:Eq.
+      + eapply safe_weaken; [eapply add_text_to_container_spec; exact J2|]. intros s' _ R. exact R.
+      + exfalso. destruct J2 as (_ & _ & _ & C & _). rewrite C, Nat.eqb_refl in Eq. discriminate Eq.
+    - exact K. }
+  apply sbind; [eapply safe_nb; exact S2|]. intros s3 E3. pose proof (safe_ok _ _ _ S2 E3) as L3.
+  cbn [safe]. eapply LI_eqtree; [|exact L3]. repeat split.
+Qed.
+
+Lemma process_lines_spec o : bo_table o = false -> bo_description_lists o = false ->
+  forall ls st, LI o st -> safe (LI o) (process_lines o st ls).
+Proof.
+  intros Tb Dl. induction ls as [|l r IH]; intros st L0; cbn [process_lines]; [exact L0|].
+  pose proof (process_line_spec o st l Tb Dl L0) as S.
+  apply sbind; [eapply safe_nb; exact S|]. intros s1 E. apply IH. exact (safe_ok _ _ _ S E).
+Qed.
+
+Lemma finalize_document_nb o st : LI o st -> nb (finalize_document o st).
+Proof.
+  intros [V H]. unfold finalize_document.
+  pose proof (finalize_up_to_spec o root_id "mod.rs:finalize_document:self.finalize(self.current).unwrap()"
+                (or_intror eq_refl) (S (ps_next st)) st V (or_intror H)) as S.
+  apply nb_bind_eq; [eapply safe_nb; exact S|]. intros s1 E. destruct (safe_ok _ _ _ S E) as (V1 & _).
+  apply nb_bind; [apply finalize_nb; now apply (has_root o) | intros; exact I].
+Qed.
+
+Lemma run_lines_nb o st ls : bo_table o = false -> bo_description_lists o = false -> LI o st -> nb (run_lines o st ls).
+Proof.
+  intros Tb Dl L0. unfold run_lines. pose proof (process_lines_spec o Tb Dl ls st L0) as S.
+  apply nb_bind_eq; [eapply safe_nb; exact S|]. intros s1 E. apply finalize_document_nb. exact (safe_ok _ _ _ S E).
+Qed.
+
+Lemma ispara_root o st : W o st -> ispara st root_id = false.
+Proof.
+  intros (((D & _) & _) & _ & R). unfold ispara, R0 in *. rewrite <- R, find_root_id. unfold is_paragraph. now rewrite D.
+Qed.
+
+Lemma front_matter_prologue_spec o st s : LI o st ->
+  safe (fun r => LI o (fst r)) (front_matter_prologue o st s).
+Proof.
+  intros [V H]. unfold front_matter_prologue.
+  destruct (bo_front_matter_delimiter o) as [d|]; [|split; assumption].
+  apply sbind; [auto with nb|]. intros sp _. destruct sp as [[fm rest]|]; [|split; assumption].
+  apply sbind; [auto with nb|]. intros stripped _.
+  apply sbind; [unfold add_child; apply add_child_gen_nb; [exact V | now apply (has_root o)]|]. intros [node s1] A.
+  pose proof (add_child_W _ _ _ _ _ _ _ A V eq_refl eq_refl eq_refl) as V1. unfold add_child in A.
+  destruct (add_child_gen_post _ _ _ _ _ _ _ _ A V V1 (has_root _ _ V) (fun i => eq_refl)) as [(G1 & G2 & G3 & G4) IP].
+  cbn [bi_val new_info is_pv] in IP.
+  assert (Nr : node <> root_id) by (intro E; exact (G4 _ (has_root _ _ V) (eq_sym E))).
+  assert (Hc1 : has s1 (ps_current st)).
+  { destruct (G3 _ H) as [[_ P]|K]; [|exact K]. rewrite (ispara_root _ _ V) in P. discriminate P. }
+  pose proof (finalize_unwrap_spec "mod.rs:feed:self.finalize(node).unwrap()" o s1 node V1 G1 Nr) as S.
+  apply sbind; [eapply safe_nb; exact S|]. intros [p s2] E2. destruct (safe_ok _ _ _ S E2) as (V2 & _ & _ & _ & _ & Sm).
+  cbn [fst snd] in *. specialize (Sm IP).
+  apply sbind; [apply nb_modify_info; apply (same_has _ _ _ Sm); exact G1|]. intros s3 M.
+  assert (Hg : forall i, bi_id (set_end (1 + count_line_endings stripped) (List.length d) (set_start 1 1 i)) = bi_id i /\
+                         bi_val (set_end (1 + count_line_endings stripped) (List.length d) (set_start 1 1 i)) = bi_val i)
+    by (intro; split; reflexivity).
+  pose proof (modify_info_set_W _ _ _ _ _ M Hg V2) as V3. pose proof (modify_info_set_same _ _ _ _ M Hg) as Sm3.
+  cbn [safe fst]. split; [exact V3|].
+  change (has s3 (ps_current s3)). rewrite (sm_cur _ _ Sm3), (sm_cur _ _ Sm), G2.
+  apply (same_has _ _ _ Sm3). apply (same_has _ _ _ Sm). exact Hc1.
+Qed.
+
+Lemma LI_init o : LI o init_state.
+Proof. split; [apply W_init | now left]. Qed.
+
+Theorem parse_blocks_nb o x : bo_table o = false -> bo_description_lists o = false -> nb (parse_blocks o x).
+Proof.
+  intros Tb Dl. unfold parse_blocks.
+  pose proof (front_matter_prologue_spec o init_state x (LI_init o)) as S.
+  apply nb_bind_eq; [eapply safe_nb; exact S|]. intros [st rest] E. pose proof (safe_ok _ _ _ S E) as L0. cbn [fst] in L0.
+  destruct (feed_lines rest) as [lines total].
+  apply nb_bind; [now apply run_lines_nb | intros; exact I].
+Qed.
+
+Lemma bad_in s : In s tree_sites -> bad s = true.
+Proof.
+  intro H. unfold bad. apply existsb_exists. exists s. split; [exact H | apply String.eqb_refl].
+Qed.
+
+(* with the table and description-list extensions off: no tree-lookup Panic site is reachable, for every input *)
+Theorem parse_blocks_no_tree_panic o x s :
+  bo_table o = false -> bo_description_lists o = false -> In s tree_sites -> parse_blocks o x <> Panic s.
+Proof.
+  intros Tb Dl Hs E. pose proof (parse_blocks_nb o x Tb Dl) as N. rewrite E in N. unfold nb, safe in N.
+  rewrite (bad_in _ Hs) in N. discriminate N.
+Qed.
